@@ -3,11 +3,19 @@ package props
 
 import (
 	_ "verif/props/c01"
+	_ "verif/props/c06"
 	_ "verif/props/c07"
 	_ "verif/props/c08"
 	_ "verif/props/c09"
+	_ "verif/props/c15"
+	_ "verif/props/c16"
+	_ "verif/props/c17"
+	_ "verif/props/c18"
 	_ "verif/props/c19"
+	_ "verif/props/c22"
+	_ "verif/props/c23"
 	_ "verif/props/c24"
+	_ "verif/props/c25"
 	_ "verif/props/c26"
 	_ "verif/props/c30"
 )
